@@ -16,7 +16,7 @@ import (
 func randKitchen(rng *rand.Rand, k int) *aspec.ASpec {
 	bases := baseForms()
 	a := &aspec.ASpec{Base: bases[k%len(bases)], SpecName: []string{"openapi.yaml", "spec.json", "api.v1.yml"}[k%3],
-		Flags: aspec.Flags{APIHandler: true, DoNotEdit: k%2 == 0, Cors: k%3 != 0},
+		Flags:   aspec.Flags{APIHandler: true, DoNotEdit: k%2 == 0, Cors: k%3 != 0},
 		Schemes: []aspec.Scheme{{Key: "A", Kind: "bearer"}, {Key: "B", Kind: "apiKeyHeader", Name: []string{"X-Key-B", "X-Api_Key.B", "x-keyb-id"}[k%3]}, {Key: "Q", Kind: "apiKeyQuery", Name: "kq"}}}
 	secs := []aspec.Sec{{K: "inherit"}, {K: "list", List: [][]string{}}, {K: "list", List: [][]string{{"A"}}}, {K: "list", List: [][]string{{"B"}}},
 		{K: "list", List: [][]string{{"Q"}}}, {K: "list", List: [][]string{{"A"}, {"B"}}}, {K: "list", List: [][]string{{"B"}, {"Q"}}}}
